@@ -8,39 +8,43 @@
 From Tetl Require Import Lib.Base Lib.Arr C06a.Model C06a.ModelMove C06a.Spec C06a.P4_Move.
 From Tetl Require Import C06a.P1_StablePartition C06a.P1_RemoveIf C06a.P1_Partition.
 
-Theorem C06_unique_moves : forall (A : Type) (mv : A) (eqv : A -> A -> bool),
-  (forall x, eqv x x = true) ->
-  (forall x y, eqv x y = true -> eqv y x = true) ->
-  (forall x y z, eqv x y = true -> eqv y z = true -> eqv x z = true) ->
-  forall l : list A, exists l' tr,
-    unique_mv mv eqv l = Ok (l', length (unique_spec eqv l), tr)
-    /\ firstn (length (unique_spec eqv l)) l' = unique_spec eqv l
-    /\ length l' = length l
-    /\ Forall (fun m => fst m < snd m) tr.
-Proof. intros A mv eqv Hr Hs Ht l. apply unique_mv_correct; assumption. Qed.
-Print Assumptions C06_unique_moves.
-
-Theorem C06_remove_if_moves : forall (A : Type) (mv : A) (p : A -> bool) (l : list A), exists l' tr,
-  remove_if_mv mv p l = Ok (l', length (remove_if_spec p l), tr)
-  /\ firstn (length (remove_if_spec p l)) l' = remove_if_spec p l
-  /\ length l' = length l
-  /\ Forall (fun m => fst m < snd m) tr.
-Proof. intros. apply remove_if_mv_correct. Qed.
-Print Assumptions C06_remove_if_moves.
-
-Theorem C06_shift_moves : forall (A : Type) (mv : A) (l : list A) (n : Z),
-  (0 < n < Z.of_nat (length l))%Z ->
-  (exists l' tr, shift_left_mv mv l n = Ok (l', length l - Z.to_nat n, tr)
-     /\ firstn (length l - Z.to_nat n) l' = shift_left_spec l (Z.to_nat n)
+Theorem C06_element_moves : forall (A : Type) (mv : A),
+  (* unique, under the standard's precondition that eqv is an equivalence relation *)
+  (forall eqv : A -> A -> bool,
+     (forall x, eqv x x = true) ->
+     (forall x y, eqv x y = true -> eqv y x = true) ->
+     (forall x y z, eqv x y = true -> eqv y z = true -> eqv x z = true) ->
+     forall l : list A, exists l' tr,
+       unique_mv mv eqv l = Ok (l', length (unique_spec eqv l), tr)
+       /\ firstn (length (unique_spec eqv l)) l' = unique_spec eqv l
+       /\ length l' = length l
+       /\ Forall (fun m => fst m < snd m) tr)
+  /\
+  (* remove_if *)
+  (forall (p : A -> bool) (l : list A), exists l' tr,
+     remove_if_mv mv p l = Ok (l', length (remove_if_spec p l), tr)
+     /\ firstn (length (remove_if_spec p l)) l' = remove_if_spec p l
      /\ length l' = length l
      /\ Forall (fun m => fst m < snd m) tr)
   /\
-  (exists l' tr, shift_right_mv mv l n = Ok (l', Z.to_nat n, tr)
-     /\ skipn (Z.to_nat n) l' = shift_right_spec l (Z.to_nat n)
-     /\ length l' = length l
-     /\ Forall (fun m => snd m < fst m) tr).
-Proof. intros A mv l n Hn. split; [apply shift_left_mv_correct|apply shift_right_mv_correct]; exact Hn. Qed.
-Print Assumptions C06_shift_moves.
+  (* shift_left / shift_right for 0 < n < length (otherwise nothing is moved: C06_shift_*_nonpositive / _too_far) *)
+  (forall (l : list A) (n : Z), (0 < n < Z.of_nat (length l))%Z ->
+     (exists l' tr, shift_left_mv mv l n = Ok (l', length l - Z.to_nat n, tr)
+        /\ firstn (length l - Z.to_nat n) l' = shift_left_spec l (Z.to_nat n)
+        /\ length l' = length l
+        /\ Forall (fun m => fst m < snd m) tr)
+     /\
+     (exists l' tr, shift_right_mv mv l n = Ok (l', Z.to_nat n, tr)
+        /\ skipn (Z.to_nat n) l' = shift_right_spec l (Z.to_nat n)
+        /\ length l' = length l
+        /\ Forall (fun m => snd m < fst m) tr)).
+Proof.
+  intros A mv. split; [|split].
+  - intros eqv Hr Hs Ht l. apply unique_mv_correct; assumption.
+  - intros p l. apply remove_if_mv_correct.
+  - intros l n Hn. split; [apply shift_left_mv_correct|apply shift_right_mv_correct]; exact Hn.
+Qed.
+Print Assumptions C06_element_moves.
 
 (* the model is not blind: a move assignment of a cell onto itself leaves the mark (what the seeded change C06-h3 does) *)
 Example C06_self_move_destroys : omove (-999)%Z [1; 2; 3]%Z 1 1 = Ok [1; -999; 3]%Z
